@@ -22,7 +22,10 @@ pub fn check_case(c: &Case) -> CaseResult {
         r.note = Some(format!("input name section of {}:{} is malformed for the oracle's reader; skipped", c.family, c.coords));
         return r;
     }
-    let out = match roundtrip(&c.wasm, &Cfg::default(), do_gc) {
+    // with synthetic names on, walrus names what the input left unnamed (and treats empty local
+    // names as absent): tolerated exactly there, everything the input did name is checked as usual
+    let synth = c.cfg.get("synthetic").and_then(|x| x.as_bool()).unwrap_or(false);
+    let out = match roundtrip(&c.wasm, &Cfg { synthetic: synth, ..Cfg::default() }, do_gc) {
         Ok(o) => o,
         Err(_) => return r,
     };
@@ -75,7 +78,7 @@ pub fn check_case(c: &Case) -> CaseResult {
         for (j, n2) in nb {
             match maps.r(sp, *j) {
                 Some(i) => {
-                    if na.get(&i) != Some(n2) {
+                    if na.get(&i) != Some(n2) && !(synth && na.get(&i).is_none()) {
                         bad(
                             format!("name-migrated:{}", kind),
                             format!("output {} {} is named {:?} but it is input {} {} whose name was {:?}", kind, j, n2, kind, i, na.get(&i)),
@@ -103,6 +106,9 @@ pub fn check_case(c: &Case) -> CaseResult {
     }
     // locals
     for ((fi, li), n) in &a.names.locals {
+        if synth && n.is_empty() {
+            continue;
+        }
         let fj = match maps.f(Space::Func, *fi) {
             Some(j) => j,
             None => continue,
@@ -131,7 +137,7 @@ pub fn check_case(c: &Case) -> CaseResult {
         let nparams = a.func_sig(fi).map(|s| s.params.len()).unwrap_or(0) as u32;
         let li = if *lj < nparams { Some(*lj) } else { maps.bodies.get(&fi).and_then(|c| c.local_map.iter().find(|(_, v)| *v == lj).map(|(k, _)| *k)) };
         let was = li.and_then(|li| a.names.locals.get(&(fi, li)));
-        if was != Some(n2) {
+        if was != Some(n2) && !(synth && was.map(|w| w.is_empty()).unwrap_or(true)) {
             bad("name-migrated:local".into(), format!("output local {}/{} is named {:?}; it is input local {:?} of function {} whose name was {:?}", fj, lj, n2, li, fi, was));
         }
     }
@@ -218,6 +224,9 @@ pub fn run(args: &Args) -> i32 {
     for m in &ms {
         for gc in [false, true] {
             cases.push(Case::of(m).with(json!({"gc": gc})));
+            if m.family != "fixtures" && (m.family == "locals-named" || m.coords.contains("mask=111111111") || m.coords.contains("sparse")) {
+                cases.push(Case::of(m).with(json!({"gc": gc, "synthetic": true})));
+            }
         }
     }
     ev.rule = "every subset of the 9 name subsections (x module shapes in the thorough tier) on modules whose functions are permuted by walrus's size sort, every declaration order of <= 3 named locals over 4 types x used subsets x 0-2 params, plus all fixtures, x {no pass, gc}: \
